@@ -485,6 +485,282 @@ func (sc *Scenario) foldProbe(leader int) {
 	sc.note("fold probe: node %d recorded no fsm.snapshot within 15 s", f)
 }
 
+// ---------------------------------------------------------------- (f) the leader's server object was replaced at run time
+
+// highExp is the expiration in force while the restore and the change of leader are arranged:
+// larger than every leaderless phase of those, so that the session that keeps talking is not
+// deleted for a reason that has nothing to do with the restore.
+const highExp = 30 * time.Second
+
+// runRestoredLeader: a follower F installs a snapshot at RUN TIME (raft InstallSnapshot ->
+// FSM.Restore, which builds a new IRCServer and publishes it; F's process and its timer loop
+// go on), then F becomes the leader of a quorum, then the expiration is lowered by a Config
+// entry. From then on F's sweeps must see the server the restore published: the session that
+// keeps talking stays, the one that stopped talking goes, a session created after the restore
+// goes, under the expiration set after the restore.
+//
+//	F is held back with SIGSTOP while the other two commit entries; the leader takes a snapshot
+//	(GET /snapshot; with TrailingLogs = 1 its raft log is cut right behind the snapshot); F is
+//	resumed: what it lacks is no longer in the leader's raft log. Its own hook trace shows
+//	fsm.restored.
+//	F is made the leader without an election it could lose: the third node O is stopped, one more
+//	entry is committed by {L, F}, L is killed, O is resumed. O lacks an entry F has: O can vote,
+//	but never win.
+//
+// Whatever cannot be arranged is reported as inconclusive, never judged.
+//
+// exLeader: F is the node that was the leader from the start and whose timer loop has already run
+// as the leader's (at least one tick) before it is stopped; the other two elect a new leader while
+// it is away. So F's loop has used the server object of process start before the restore replaces
+// it. Otherwise F is one of the initial followers: its loop never got past the leader test before.
+func (sc *Scenario) runRestoredLeader(rng *rand.Rand, exp time.Duration, long, exLeader bool) error {
+	c := sc.c
+	if err := sc.setConfig(highExp); err != nil {
+		return err
+	}
+	leader, err := c.WaitLeader(20*time.Second, 0)
+	if err != nil {
+		return err
+	}
+	var fol []int
+	for _, n := range c.nodes {
+		if n.id != leader {
+			fol = append(fol, n.id)
+		}
+	}
+	if rng.Intn(2) == 1 {
+		fol[0], fol[1] = fol[1], fol[0]
+	}
+	F, other := fol[0], fol[1]
+	if exLeader {
+		F, other, leader = leader, fol[0], fol[1]
+	}
+	var wg sync.WaitGroup
+	stopAll, stopOld := make(chan struct{}), make(chan struct{})
+	closeOnce := func(ch chan struct{}) {
+		select {
+		case <-ch:
+		default:
+			close(ch)
+		}
+	}
+	defer func() {
+		closeOnce(stopAll)
+		closeOnce(stopOld)
+		wg.Wait()
+	}()
+	// two sessions from before the restore, both talking; their long polls are not on F
+	act, err := sc.session("active", "ract"+fmt.Sprint(rng.Intn(90)+10), other, true)
+	if err != nil {
+		return err
+	}
+	pinger(act, time.Second, false, stopAll, &wg)
+	old, err := sc.session("old", "rold"+fmt.Sprint(rng.Intn(90)+10), leader, true)
+	if err != nil {
+		return err
+	}
+	pinger(old, time.Second, true, stopOld, &wg)
+	if !c.waitApplied(F, uint64(old.idx)+3, 15*time.Second) {
+		return inconclusive("node %d did not apply the first sessions", F)
+	}
+	restoresBefore := len(c.restores(F))
+	if exLeader {
+		// F's timer has fired at least once while F was the leader
+		if d := time.Until(c.node(F).started.Add(sweepInterval + 1500*time.Millisecond)); d > 0 {
+			time.Sleep(d)
+		}
+		if l := c.Leader(); l != F {
+			return inconclusive("node %d did not stay the leader until its first sweep was due (leader: %d)", F, l)
+		}
+	}
+
+	// ---- F falls behind, the leader cuts its raft log, F comes back
+	c.Pause(F)
+	f := newEv("fault")
+	f.K, f.N, f.T = "stop", int64(F), c.rec.Now()
+	sc.faults = append(sc.faults, f)
+	c.rec.Raw("fault", "how", "stop", "n", F)
+	time.Sleep(1500*time.Millisecond + time.Duration(rng.Intn(500))*time.Millisecond)
+	l, err := c.WaitLeader(30*time.Second, F)
+	if err != nil {
+		return inconclusive("no leader among the two running nodes")
+	}
+	if exLeader {
+		// entries under the new leader: acknowledged posts of the two sessions
+		t0 := c.rec.Now()
+		for end := time.Now().Add(20 * time.Second); ; time.Sleep(100 * time.Millisecond) {
+			if act.ackedSince(t0)+old.ackedSince(t0) >= 3 {
+				break
+			}
+			if time.Now().After(end) {
+				return inconclusive("no entries were committed under the new leader %d", l)
+			}
+		}
+	}
+	// BOTH running nodes take a snapshot: when F comes back it disturbs the leader (its term is
+	// higher), and whichever of the two leads afterwards must have cut its raft log
+	for _, n := range c.nodes {
+		if n.id == F {
+			continue
+		}
+		snapsBefore := len(c.snapshots(n.id))
+		if code, _, _, err := c.private("GET", n.id, "/snapshot", nil, nil, 20*time.Second); err != nil || code != 200 {
+			return inconclusive("GET /snapshot on node %d: %v HTTP %d", n.id, err, code)
+		}
+		for end := time.Now().Add(15 * time.Second); len(c.snapshots(n.id)) == snapsBefore; time.Sleep(50 * time.Millisecond) {
+			if time.Now().After(end) {
+				return inconclusive("node %d recorded no fsm.snapshot within 15 s", n.id)
+			}
+		}
+		c.rec.Raw("snapshot", "n", n.id)
+	}
+	// raft cuts the log after the snapshot is stored; further entries, so that F is more than
+	// TrailingLogs behind
+	time.Sleep(1200*time.Millisecond + time.Duration(rng.Intn(400))*time.Millisecond)
+	pre := c.appliedIndex(F)
+	resumed := c.rec.Now()
+	c.Resume(F)
+	c.rec.Raw("resume", "n", F, "applied", pre)
+	for end := time.Now().Add(45 * time.Second); len(c.restores(F)) == restoresBefore; time.Sleep(50 * time.Millisecond) {
+		if time.Now().After(end) {
+			return inconclusive("the run-time restore could not be established: node %d, stopped at index %d behind the compacting snapshots of the other two, recorded no fsm.restored within 45 s of being resumed (%d ms ago; leader then: %d)", F, pre, c.rec.Now()-resumed, l)
+		}
+	}
+	seen := c.rec.Now()
+	rs := c.restores(F)
+	r := rs[len(rs)-1]
+	// (r.pre can be beyond `pre`: what F had stored but not applied when it was stopped is applied first)
+	re := newEv("restore")
+	re.N, re.T, re.T2, re.I, re.S = int64(F), resumed, seen, int64(r.pre), int64(r.last)
+	if b, e := c.restoreLogTimes(F); len(b) > 0 && len(e) > 0 && b[len(b)-1] >= resumed-1000 && e[len(e)-1] <= seen+1000 && b[len(b)-1] <= e[len(e)-1] {
+		// the node's own log dates the restore more closely
+		re.T, re.T2 = b[len(b)-1], e[len(e)-1]
+	}
+	sc.extra = append(sc.extra, re)
+	sc.restoredNode = F
+	c.rec.Raw("restored", "n", F, "pre", r.pre, "first", r.first, "last", r.last, "t", re.T, "t2", re.T2)
+	if r.last <= r.pre {
+		sc.unmet = append(sc.unmet, fmt.Sprintf("the snapshot node %d installed (up to %d) is not ahead of what it had applied (%d)", F, r.last, r.pre))
+	}
+
+	// ---- a session created after the restore; it says nothing after its JOIN
+	if _, err := c.WaitLeader(30*time.Second, F); err != nil {
+		return err
+	}
+	home := other
+	if l2 := c.Leader(); l2 != 0 && l2 != F {
+		home = l2
+	}
+	fresh, err := sc.session("fresh", "rnew"+fmt.Sprint(rng.Intn(90)+10), home, true)
+	if err != nil {
+		return err
+	}
+	if !c.waitApplied(F, uint64(fresh.idx)+3, 20*time.Second) {
+		return inconclusive("node %d did not catch up after its restore", F)
+	}
+
+	// ---- F becomes the leader
+	L := c.Leader()
+	if L == 0 || L == F {
+		// (F can have won an election of its own by now: then the others are behind in nothing)
+		if L, err = c.WaitLeader(10*time.Second, F); err != nil {
+			return inconclusive("node %d became the leader before the third node could be held back", F)
+		}
+	}
+	O := 6 - F - L
+	c.Pause(O)
+	c.rec.Raw("fault", "how", "stop", "n", O)
+	paused := c.rec.Now()
+	// an entry O lacks: acknowledged after O was stopped, so committed by L and F
+	acked := func() bool { return act.ackedSince(paused+50)+old.ackedSince(paused+50) > 0 }
+	for end := time.Now().Add(20 * time.Second); ; time.Sleep(100 * time.Millisecond) {
+		if c.rec.Now() > paused+1200 && acked() {
+			break
+		}
+		if time.Now().After(end) {
+			return inconclusive("no entry was committed by nodes %d and %d while node %d was stopped", L, F, O)
+		}
+	}
+	// "old" falls silent here (the expiration in force is still the high one): by the restored
+	// leader's first sweep under the lowered expiration it has been idle for long enough
+	closeOnce(stopOld)
+	if l3 := c.Leader(); l3 != L {
+		// the leader changed meanwhile: then it is F (O is stopped) - nothing left to arrange
+		c.rec.Raw("note", "text", fmt.Sprintf("leader is %d, not %d, before the kill", l3, L))
+	}
+	f2 := newEv("fault")
+	f2.K, f2.N, f2.T = "kill", int64(L), c.rec.Now()
+	c.Kill(L)
+	sc.faults = append(sc.faults, f2)
+	c.rec.Raw("fault", "how", "kill", "n", L)
+	c.Resume(O)
+	c.rec.Raw("resume", "n", O)
+	nl, err := c.WaitLeader(60*time.Second, L)
+	if err != nil {
+		return err
+	}
+	if nl != F {
+		return inconclusive("node %d, not the restored node %d, became the leader", nl, F)
+	}
+	// with a quorum: a line of the talking session is acknowledged under the new leader
+	took := c.rec.Now()
+	for end := time.Now().Add(30 * time.Second); act.ackedSince(took) == 0; time.Sleep(50 * time.Millisecond) {
+		if act.isGone() {
+			sc.note("restored-leader: the active session was gone when node %d took office", F)
+			return nil
+		}
+		if time.Now().After(end) {
+			return inconclusive("no entry was acknowledged after node %d took office", F)
+		}
+	}
+	inOffice := time.Now()
+	e := newEv("newleader")
+	e.N, e.T = int64(nl), c.rec.Now()
+	sc.extra = append(sc.extra, e)
+	c.rec.Raw("newleader", "n", nl)
+
+	// ---- the Config entry after the restore
+	if err := sc.setConfig(exp); err != nil {
+		return err
+	}
+	lowered := time.Now()
+	c.rec.Raw("lowered", "ms_after_taking_office", time.Since(inOffice).Milliseconds())
+	var late *Sess
+	if long {
+		// created under the restored leader, silent from the start
+		if late, err = sc.session("late", "rlate"+fmt.Sprint(rng.Intn(90)+10), F, true); err != nil {
+			return err
+		}
+	}
+	okF, _ := sc.waitExpiry(fresh, act, lowered.Add(-exp), exp, "restored-fresh")
+	okO, _ := sc.waitExpiry(old, act, lowered.Add(-exp), exp, "restored-old")
+	if okF {
+		fresh.WaitLine(func(l *Line) bool { return parseIRC(l.data).cmd == "ERROR" }, 10*time.Second)
+		time.Sleep(200 * time.Millisecond)
+		if !act.isGone() {
+			if err := sc.afterExpiry(fresh, act, "restored"); err != nil {
+				return err
+			}
+		} else {
+			fresh.ProbeGet(fresh.home)
+		}
+	}
+	if okO {
+		old.ProbeGet(old.home)
+	}
+	if late != nil && okF && okO {
+		if ok, _ := sc.waitExpiry(late, act, time.Now().Add(-exp), exp, "restored-late"); ok {
+			late.ProbeGet(late.home)
+		}
+	}
+	closeOnce(stopAll)
+	wg.Wait()
+	if !act.isGone() {
+		act.ProbeGet(act.home)
+	}
+	return nil
+}
+
 // ---------------------------------------------------------------- a services link that ends silently
 
 // runLinkGone (not part of the tiers; run by hand): a services link without pseudo-clients is
